@@ -341,6 +341,13 @@ func classifyHeaderUse(c *ssa.Call) string {
 					uses = append(uses, "index")
 				} else if b, isB := x.Call.Value.(*ssa.Builtin); isB && b.Name() == "delete" {
 					uses = append(uses, "key")
+				} else if cf != nil && cf.Blocks != nil && cf.Pkg == c.Parent().Pkg {
+					// handed to a helper of the package (newReadBuffer(n)): what the helper does with the parameter
+					for i, a := range x.Call.Args {
+						if a == v && i < len(cf.Params) {
+							walk(cf.Params[i], d+1)
+						}
+					}
 				}
 			case *ssa.Convert:
 				walk(x, d+1)
@@ -411,31 +418,45 @@ func ruleC14B3(r *Run) {
 		ok := true
 		detail := ""
 		found := false
-		allInstrs(rcv, func(ins ssa.Instruction) {
-			mk, isMk := ins.(*ssa.MakeSlice)
-			if !isMk {
-				return
-			}
-			found = true
-			// walk the length expression: any BinOp ADD computed in a type narrower than int is a wrap hazard
-			var walk func(v ssa.Value, d int)
-			walk = func(v ssa.Value, d int) {
-				if d > 5 {
+		p.withHelpers(rcv, 1, func(g *ssa.Function) {
+			allInstrs(g, func(ins ssa.Instruction) {
+				mk, isMk := ins.(*ssa.MakeSlice)
+				if !isMk {
 					return
 				}
-				switch x := v.(type) {
-				case *ssa.Convert:
-					walk(x.X, d+1)
-				case *ssa.BinOp:
-					if b, isB := x.Type().Underlying().(*types.Basic); isB && (b.Kind() == types.Uint16 || b.Kind() == types.Uint8 || b.Kind() == types.Int16 || b.Kind() == types.Int8) && x.Op == token.ADD {
-						ok = false
-						detail = fmt.Sprintf("the slot count is computed as %s in %s arithmetic at %s: the maximal index 65535 (which the sender accepts) wraps to a zero-length array and the message can never be reassembled", x.String(), b.Name(), p.pos(x.Pos()))
-					}
-					walk(x.X, d+1)
-					walk(x.Y, d+1)
+				if _, is2D := mk.Type().Underlying().(*types.Slice).Elem().Underlying().(*types.Slice); !is2D {
+					return
 				}
-			}
-			walk(mk.Len, 0)
+				found = true
+				// walk the length expression: any BinOp ADD computed in a type narrower than int is a wrap hazard
+				var walk func(v ssa.Value, d int)
+				walk = func(v ssa.Value, d int) {
+					if d > 5 {
+						return
+					}
+					switch x := v.(type) {
+					case *ssa.Parameter:
+						// the count is computed by the caller of the helper
+						if origins, _ := p.originsThroughParams(x, 0); len(origins) > 0 {
+							for _, o := range origins {
+								if o != ssa.Value(x) {
+									walk(o, d+1)
+								}
+							}
+						}
+					case *ssa.Convert:
+						walk(x.X, d+1)
+					case *ssa.BinOp:
+						if b, isB := x.Type().Underlying().(*types.Basic); isB && (b.Kind() == types.Uint16 || b.Kind() == types.Uint8 || b.Kind() == types.Int16 || b.Kind() == types.Int8) && x.Op == token.ADD {
+							ok = false
+							detail = fmt.Sprintf("the slot count is computed as %s in %s arithmetic at %s: the maximal index 65535 (which the sender accepts) wraps to a zero-length array and the message can never be reassembled", x.String(), b.Name(), p.pos(x.Pos()))
+						}
+						walk(x.X, d+1)
+						walk(x.Y, d+1)
+					}
+				}
+				walk(mk.Len, 0)
+			})
 		})
 		r.Check(fnName(rcv)+" slot count without wrap-around", ok && found, p.pos(rcv.Pos()), fnName(rcv), "slot count = max index + 1 computed in int. "+detail)
 	}
